@@ -525,7 +525,9 @@ SKELETON_FUNCS = {
     "src/core/cfuns.c": ["genericSS", "genericSSI", "opfunction", "can_be_imm", "can_slot_be_imm", "reduce_target", "opreduce", "compreduce",
                          "janetc_funopt"],
     "src/core/corelib.c": ["janet_quick_asm"],
-    "src/core/specials.c": ["janetc_check_nil_form"],
+    # janetc_varset: the one place that writes a NAMED variable's slot refuses a slot without JANET_SLOT_MUTABLE - hypothesis `himmune`
+    # of Spec.opreduce_snapshot_chain_computes (an operand that was not snapshotted cannot be assigned by an operator method)
+    "src/core/specials.c": ["janetc_check_nil_form", "janetc_varset"],
     # operand loads of emit.c (model: Spec/Operand.lean `regnear` / `loadInstr`; theorem `operands_loaded`)
     "src/core/emit.c": ["janetc_movenear", "janetc_regnear", "janetc_emit_sss", "emit2s"],
 }
